@@ -102,6 +102,15 @@ def c04_sweep(r, seed, tier, model_ok):
             items.append((f"direct:bit.ㅈ({opnd},{cnt_})", f"{E(opnd)} {E(cnt_)} (ㅂ ㅂㄷ ㅈ ㅂㅎㄹ) ㅎㄷ"))
             items.append((f"direct:bit.ㅈ({opnd},{-cnt_})", f"{E(opnd)} {E(-cnt_)} (ㅂ ㅂㄷ ㅈ ㅂㅎㄹ) ㅎㄷ"))
             items.append((f"direct:bit.ㅈ-under-try({opnd},{cnt_})", f"({E(opnd)} {E(cnt_)} (ㅂ ㅂㄷ ㅈ ㅂㅎㄹ) ㅎㄷ) ((ㅈㅈㄱ) ㅎ) ㅅㄷㅎㄷ"))
+    # converter widths that the host can index but cannot allocate (2^48 .. 2^62 bytes: an immediate MemoryError), or cannot even index (2^63 ..:
+    # OverflowError), every scheme, with and without a byte order, alone and under ㅅㄷ: a value error of the language like any other refused width
+    for w_ in (2**48, 2**55, 2**62, 2**63 - 1, 2**63, 2**64, 2**100, -2**62):
+        for sch in (0, 1, 2):
+            for arg in (E(0), E(1), E(-1), E(255), "(ㅁㅈㅎㄱ)"):
+                for order in ("", E(0), E(1)):
+                    prog = f"{arg} ({E(sch)} {E(w_)} {order} ㅂ ㅂ ㅂㅎㄷ ㅎ{E(3 if order else 2)}) ㅎㄴ"
+                    items.append((f"direct:codec({sch},{w_},{order})({arg})", prog))
+                    if order == "": items.append((f"direct:codec-under-try({sch},{w_})({arg})", f"({prog}) ((ㅈㅈㄱ) ㅎ) ㅅㄷㅎㄷ"))
     d = os.path.join(vlib.ROOT, ".scratch"); os.makedirs(d, exist_ok=True); cwd = os.getcwd(); os.chdir(d)        # ㄱㄴ / ㅂ with path-like strings run here
     try: out = pmap(_classify, items, chunksize=400)
     finally: os.chdir(cwd)
